@@ -185,7 +185,7 @@ class PathCtx:
         dt = time.time() - t0
         self.solver_secs += dt
         self.solver_calls += 1
-        if dt > 0.5 and os.environ.get("PYVC_DEBUG"):
+        if dt > float(os.environ.get("PYVC_DEBUG_T", "0.5")) and os.environ.get("PYVC_DEBUG"):
             import sys
             print(f"[slow {dt:.1f}s {r}] {[str(a)[:300] for a in assumptions]}", file=sys.stderr)
         if r == z3.unknown:
